@@ -101,6 +101,15 @@ class Oracle:
             self._log(i)
         return el
 
+    def randint(self, low, high=None, size=None):
+        # numpy.random.randint(n): VariableComputation.random_value_selection draws an index
+        # into the domain (since /repo 4dab747; before: numpy.random.choice(domain)); the model
+        # takes the same index (choose dom i = dom[i mod len dom])
+        lo, hi = (0, low) if high is None else (low, high)
+        i = self.rng.randrange(hi - lo)
+        self._log(i)
+        return lo + i
+
     def random(self):
         # used by mgm._send_gain (tie-break number that the code never uses: break_mode == random
         # compares a string with the module) and by dsa.probabilistic_change
@@ -235,9 +244,10 @@ def run_case(case, schedule=None):
                 events.append(["raise", vidx(e[1]), e[2], e[3]])
     drv.do = do
     saved = (random.choice, random.random, random.uniform)
-    np_saved = numpy.random.choice          # VariableComputation.random_value_selection uses numpy's
+    np_saved = (numpy.random.choice, numpy.random.randint)   # VariableComputation.random_value_selection uses numpy's
     random.choice, random.random, random.uniform = orc.choice, orc.random, orc.uniform
     numpy.random.choice = orc.choice
+    numpy.random.randint = orc.randint
     try:
         if schedule is None:
             pol = case.get("policy", "uniform")
@@ -247,7 +257,7 @@ def run_case(case, schedule=None):
                 drv.do(a)
     finally:
         random.choice, random.random, random.uniform = saved
-        numpy.random.choice = np_saved
+        numpy.random.choice, numpy.random.randint = np_saved
     chans = []
     for (s, d), ql in sorted(drv.chans.items()):
         if ql:
